@@ -11,6 +11,7 @@ structure Sess where
   trace : List Ev := []      -- accepted events, newest first
   rejected : Nat := 0
   sel : Option Selector.Sel := none   -- selector model state (before the next `next`)
+  selPrev : Option (Selector.Sel × Nat) := none   -- selector right after the last choice (before the answer's handler), target
   selEntered : Bool := false          -- the request entered as a stale read
   selRules : Bool := true             -- R1–R4 held on every model post-state
 
@@ -43,8 +44,7 @@ def rejReason (s : State) : Ev → String
     else if s.owedBusy.contains store && !s.busyCredit then "busy-store-resent-without-backoff"
     else "?"
   | .bump q _ =>
-    if s.done then "done" else if !(0 < s.credit) then "no-hint-credit"
-    else if s.last ≠ some (.nlhint q) then "no-hint" else "value"
+    if s.done then "done" else if s.last ≠ some (.nlhint q) then "no-hint" else "value"
   | .backoff k ms =>
     if s.done then "done" else if afterOk s then "after-ok"
     else match kindRow k with
@@ -180,7 +180,7 @@ def stepLine (ss : Sess) (line : String) : Sess × String :=
            ({ ss with sel := some (Selector.handle obs t fault short) }, s!"rej choice {t} not in [{SelDrv.showSet set}]")
          else match SelDrv.diffSel m1 obs with
            | some d => ({ ss with sel := some (Selector.handle obs t fault short) }, "rej " ++ d)
-           | none => ({ ss with sel := some (Selector.handle m1 t fault short),
+           | none => ({ ss with sel := some (Selector.handle m1 t fault short), selPrev := some (m1, t),
                                 selRules := ss.selRules && Selector.readFlagRules m1 t ss.selEntered }, "ok")
        | _ => (ss, "bad-op"))
   | "selend" :: rest =>
@@ -210,7 +210,14 @@ def stepLine (ss : Sess) (line : String) : Sess × String :=
              if res == "err" then
                let (set, m2) := Selector.next m0 t
                if (set.contains t || (t == 9 && set.isEmpty)) && (SelDrv.diffSel m2 obs).isNone then (ss, "ok")
-               else (ss, "rej end " ++ d)
+               else
+                 -- or from the back-off `onNotLeader` takes BEFORE following a hint that no longer makes progress: only the
+                 -- notLeader flag of the target is set
+                 match ss.selPrev with
+                 | some (mp, tp) =>
+                   let m3 := Selector.setTarget (SelDrv.refresh mp obs) tp fun r => { r with notLeader := true }
+                   if (SelDrv.diffSel m3 obs).isNone then (ss, "ok") else (ss, "rej end " ++ d)
+                 | none => (ss, "rej end " ++ d)
              else (ss, "rej end " ++ d)
        | _ => (ss, "bad-op"))
   | ["valcmds", l] =>
@@ -251,7 +258,7 @@ def stepLine (ss : Sess) (line : String) : Sess × String :=
         | "writeflags" => some (propWriteFlags c es)
         | "retrymarked" => some (propRetryMarked es)
         | "tsvalid" => some (propTsValid c es)
-        | "backoffdiscipline" => some (propBackoffDiscipline c.shortRead es)
+        | "backoffdiscipline" => some (propBackoffDiscipline c.n c.shortRead es)
         | "readflags" => some ss.selRules
         | "candidate" => some true   -- theorem chosen_is_candidate: every member of the model's choice set is sendable
         | _ => none
